@@ -171,6 +171,22 @@ CHECKS.update({
             TRUST + "modelled not verified: AtomicU64::fetch_add (atomic, wrapping); sockets as in C13",
             "machine-checked proof (Coq 8.16) on a hand-written model + differential correspondence check on real local sockets",
             "DESIGN.md 8.C14"),
+    "C12": ("proof",
+            "Coq theorems (Props/C12.v, 8) about Model/Merge.v over Model/Writer.v: for every number of threads, all programs of "
+            "emits/flushes, EVERY interleaving (is_merge; shown equivalent to 'every order in which the lock can be taken'), all "
+            "capacities, terminators and fault scripts the stream of underlying writes satisfies C05's framing; fault-free every "
+            "call is acknowledged and every metric leaves exactly once; each thread's buffered metrics leave in that thread's "
+            "program order (also under faults: written ++ still-buffered metrics of a thread = its acknowledged fitting metrics, a "
+            "sub-sequence of its program).  That a call is one atomic step is what the sink's Mutex provides: assumed by the "
+            "theorems and checked on every observed trace.  Correspondence: 2-8 real threads through one shared StatsdClient into "
+            "BufferedSpy/BufferedUdp/BufferedUnix sinks, hook H2 reports critical-section enter/exit and every underlying write; "
+            "forced hand-overs (a thread parked inside the section while others arrive at the lock) and free runs with injected "
+            "yields; the extracted model is replayed in the observed lock order and must reproduce every result and datagram; the "
+            "clauses (framing, exactly-once, per-thread order, acknowledgements) are evaluated on the datagrams",
+            TRUST + "hook H2; partial: std::sync::Mutex (mutual exclusion) is trusted and validated per trace, schedules are "
+            "sampled not enumerated (the theorems cover all interleavings of atomic calls); std BufWriter and the sockets as in C05/C13",
+            "machine-checked proof (Coq 8.16) on a hand-written model + differential correspondence check on real threads (observed lock order replayed in the model)",
+            "DESIGN.md 8.C12"),
     "C18": ("proof",
             "Coq theorems (Props/C18.v, 11) about a release/acquire view machine (Model/Singleton.v) for one atomic state and "
             "one non-atomic cell, for EVERY number of threads, programs over set/get/is_set and schedules incl. every stale-read "
